@@ -121,6 +121,10 @@ def r2_r3(ctx: Context, sites) -> None:
                     ctx.add("R3", f"{f.qualname}::compares-stored-with-expected", cmp_ok, f.loc(r_), "" if cmp_ok else "the refusal is not `stored != expected`")
                     ctx.add("R3", f"{f.qualname}::no-bypass-for-expected-None", not bypass, f.loc(r_),
                             "" if not bypass else f"the comparison is skipped when {p_exp} is None: two trigger loops that both read 'no previous execution' (the first firing of a cron condition) both store and both report success - the tick fires twice")
+                    # refuse IFF stored != expected: every further conjunct lets some mismatching writer through
+                    extra = [v for v in conj if not (isinstance(v, ast.Compare) and isinstance(v.ops[0], ast.NotEq) and p_exp in names_in(v)) and v not in bypass]
+                    ctx.add("R3", f"{f.qualname}::refuses-every-mismatch", not extra, f.loc(r_),
+                            "" if not extra else f"the refusal needs `{ast.unparse(extra[0])[:70]}` in addition to stored != expected: a writer whose expectation is stale is let through whenever that extra condition is false - two loops that read the same previous execution both store and both fire the tick")
     ctx.floor("R2", "atomic-contract implementations", n, 4)
 
 
@@ -339,6 +343,27 @@ def _last_bind_is_on(f: FuncInfo, name: str, before: ast.stmt, e: str) -> bool:
     return last is not None and isinstance(last.value, ast.Call) and call_name(last.value) == "CronContext" and any(k.arg == "last_execution" and isinstance(k.value, ast.Name) and k.value.id == e for k in last.value.keywords)
 
 
+def r11(ctx: Context) -> None:
+    ctx.rule("R11", "elapsed time is read with total_seconds(): no `.seconds` / `.microseconds` component of a time difference in the trigger code (`.seconds` drops whole days: a daily or weekly schedule is then compared with the time of day only)")
+    n = 0
+    bad = []
+    for m in ctx.repo.modules.values():
+        if not m.name.startswith("pynenc.trigger"):
+            continue
+        for node in ast.walk(m.tree):
+            if isinstance(node, ast.Call) and isinstance(node.func, ast.Attribute) and node.func.attr == "total_seconds":
+                n += 1
+            elif isinstance(node, ast.Attribute) and node.attr in ("seconds", "microseconds") and isinstance(node.ctx, ast.Load) and not isinstance(node.value, ast.Name) or (isinstance(node, ast.Attribute) and node.attr in ("seconds", "microseconds") and isinstance(node.ctx, ast.Load) and isinstance(node.value, ast.Name) and node.value.id not in ("self", "cls")):
+                # (configuration fields are called *_seconds and are attributes of self / conf, never a bare `.seconds`)
+                n += 1
+                bad.append((m, node))
+    for m, node in bad:
+        ctx.fail("R11", f"{m.name}::timedelta-component-instead-of-total_seconds", f"{m.relpath}:{node.lineno}", f"`{ast.unparse(node)[:70]}` is the seconds COMPONENT of a duration (0..86399): for gaps of a day or more the minimum-interval / window tests compare the wrong number - a daily schedule skips or delays its occurrence")
+    if not bad:
+        ctx.ok("R11", "trigger-code::durations-read-with-total_seconds", "pynenc/trigger", f"{n} duration reads")
+    ctx.floor("R11", "duration reads in trigger code", n, 2)
+
+
 def run(ctx: Context) -> None:
     sites = sqlmini.sites(ctx.repo)
     loop = ctx.repo.cls("BaseTrigger").methods.get("trigger_loop_iteration")
@@ -351,6 +376,7 @@ def run(ctx: Context) -> None:
     r6_r7_r8(ctx, loop)
     r9(ctx, loop)
     r10(ctx)
+    r11(ctx)
     ctx.exhaustive = True
     ctx.not_decided += [
         "the cron window / minimum-interval / next-tick arithmetic against a brute-force schedule (numeric over runtime timestamps and croniter)",
